@@ -37,6 +37,8 @@ type c10Env struct {
 	data   []*kit.Dataset
 	schema *kit.ScanSchema
 	ostore *objectz.ObjectStore[*kit.Person]
+	// ostore2 iterates the same objects in another order: the one with the null fields comes first
+	ostore2 *objectz.ObjectStore[*kit.Person]
 }
 
 var (
@@ -101,6 +103,7 @@ func c10Environment() *c10Env {
 			order = append(order, i)
 		}
 		e.ostore = newObjectStore(rich, order)
+		e.ostore2 = newObjectStore(rich, []int{4, 2, 0, 3, 1})
 		c10E = e
 	})
 	return c10E
@@ -238,6 +241,9 @@ memTypes:
 	if err := guarded("ObjectStore.QueryEntities", func() { _, _, _ = e.ostore.QueryEntities(text) }); err != nil {
 		return parsed, typing, fmt.Errorf("%q: %v", text, err)
 	}
+	if err := guarded("ObjectStore.QueryEntities (objects iterated in another order)", func() { _, _, _ = e.ostore2.QueryEntities(text) }); err != nil {
+		return parsed, typing, fmt.Errorf("%q: %v", text, err)
+	}
 	return parsed, typing, nil
 }
 
@@ -341,11 +347,13 @@ func runC10(c c10Case) kit.Result {
 // ---- generators ----
 
 var c10Symbols = []string{"id", "sa", "sb", "ia", "ib", "fa", "ba", "ta", "boss", "home", "roles", "nums", "places", "peers", "tags", "tags.k", "tags.n", "tags.zz",
-	"boss.sa", "boss.ia", "boss.roles", "places.name", "places.n", "home.name", "boss.tags.k", "zz", "boss.zz", "roles.x", "places.people.sa", "'sa'", "sa.b-c"}
+	"boss.sa", "boss.ia", "boss.roles", "places.name", "places.n", "home.name", "boss.tags.k", "zz", "boss.zz", "roles.x", "places.people.sa", "'sa'", "sa.b-c",
+	// function symbols: fx answers with a string for some rows and with nothing for the others, bx with a bool
+	"fx", "bx", "boss.fx", "peers.fx"}
 
 var c10Datetimes = []string{"datetime(2020-01-01T00:00:00Z)", "datetime(2016-12-31T23:59:60Z)", "datetime(2020-01-01t00:00:00z)", "datetime( 2020-02-29T12:00:00.123456789+23:59 )",
 	"datetime(99999-01-01T00:00:00Z)", "datetime(0-01-01T00:00:00-00:00)", "datetime(2021-02-30T00:00:00Z)", "datetime(2020-01-01T00:00:00.5-05:00)"}
-var c10Numbers = []string{"0", "1", "-1", "3", "2.5", "-0.5", "1e3", "1E-3", "1e400", "-1e400", "99999999999999999999", "9223372036854775807", "-9223372036854775808", "9223372036854775808", "0.0000000000000000000001", "-0"}
+var c10Numbers = []string{"0", "1", "-1", "3", "2.5", "-0.5", "1e3", "1E-3", "1e400", "-1e400", "99999999999999999999", "9223372036854775807", "-9223372036854775808", "9223372036854775808", "9223372036854775806", "4611686018427387904", "-9223372036854775807", "0.0000000000000000000001", "-0"}
 var c10Strings = []string{`""`, `"a"`, `"Bob"`, `"3"`, `"x y"`, `"\\"`, `"\""`, `"é"`, `"\n"`}
 
 func c10Literal(t *rapid.T, l string, kinds []string) string {
@@ -598,6 +606,18 @@ func exhaustiveC10(maxLen int) func(yield func(c c10Case) bool) {
 				}
 				if !yield(c10Case{Kind: "many-symbols", Text: tail + " and " + b.String() + "false" + strings.Repeat(")", n)}) {
 					return
+				}
+			}
+		}
+		// every sortable symbol on its own, in both directions, over rows where it is null and rows where it is not
+		for _, pred := range []string{"true", "sa != null", "not (fa = null)"} {
+			for _, sym := range []string{"id", "sa", "sb", "ia", "ib", "fa", "ba", "ta", "boss", "home", "fx", "bx", "tags.k", "boss.fa", "roles"} {
+				for _, dir := range []string{"", " desc"} {
+					for _, page := range []string{"", " skip 1 limit 2", " limit 9223372036854775806", " skip 9223372036854775806"} {
+						if !yield(c10Case{Kind: "paging", Text: pred + " sort by " + sym + dir + page}) {
+							return
+						}
+					}
 				}
 			}
 		}
